@@ -307,7 +307,17 @@ pub fn instr(ctx: &mut Ctx) {
     let rads = [-1.0f32, 0.0, 1.0, 1.6, 2.0, f32::NAN, f32::INFINITY];
     let positions = [-1, 0, 1, i32::MAX];
     // CODE stack of records: position k holds ( bool int float ) values recognisable by k
-    let records: Vec<Tree> = (0..9).map(|k| Tree::L(vec![Tree::B(k % 2 == 0), Tree::I(10 + k), Tree::F(0.5 + k as f32), Tree::L(vec![Tree::I(100 + k), Tree::B(true)])])).collect();
+    // every third record starts with literals of other kinds (an INDEX, a vector) ahead of the addressed values
+    let records: Vec<Tree> = (0..9)
+        .map(|k| {
+            let mut v = vec![Tree::B(k % 2 == 0), Tree::I(10 + k), Tree::F(0.5 + k as f32), Tree::L(vec![Tree::I(100 + k), Tree::B(true)])];
+            if k % 3 == 1 {
+                v.insert(0, Tree::Idx(k as usize, 9));
+                v.insert(1, Tree::IV(vec![k]));
+            }
+            Tree::L(v)
+        })
+        .collect();
     for name in ["LIST.NEIGHBOR*IDS", "LIST.NEIGHBOR*BVALS", "LIST.NEIGHBOR*IVALS", "LIST.NEIGHBOR*FVALS"] {
         for size in sizes {
             for index in idxs {
